@@ -19,7 +19,7 @@ from collections.abc import Sequence
 import numpy as np
 
 import cirq
-from cirq import protocols, value
+from cirq import ops, protocols, value
 from cirq.qis.clifford_tableau import CliffordTableau
 from cirq.sim.clifford.clifford_tableau_simulation_state import CliffordTableauSimulationState
 from cirq.work import sampler
@@ -64,5 +64,20 @@ class StabilizerSampler(sampler.Sampler):
             # Keep every instance of a repeated key: shape (repetitions, instances, qubits).
             for key, instances in state.classical_data.records.items():
                 records[str(key)].append(np.array(instances, dtype=np.uint8))
+
+        if repetitions == 0:
+            # Empty records of shape (0, instances of the key, digits per instance).
+            empty: dict[str, np.ndarray] = {}
+            for op in circuit.all_operations():
+                if isinstance(op.gate, ops.MeasurementGate):
+                    width = len(op.qubits)
+                elif isinstance(op.gate, ops.PauliMeasurementGate):
+                    width = 1
+                else:
+                    continue
+                key = protocols.measurement_key_name(op)
+                instances = empty[key].shape[1] + 1 if key in empty else 1
+                empty[key] = np.empty([0, instances, width], dtype=np.uint8)
+            return empty
 
         return {k: np.array(v) for k, v in records.items()}
